@@ -49,7 +49,7 @@ func ruleC14NoAliasOut(r *Run, p *Program, rule string) {
 			nsrc++
 		}
 	}
-	r.universe(rule+":sources", nsrc, 3)
+	r.universe(rule+":sources", nsrc, 2)
 	api := exportedAPIFuncs(p)
 	nsink := 0
 	for _, f := range api {
@@ -95,7 +95,7 @@ func ruleC14NoRetainIn(r *Run, p *Program, rule string) {
 			}
 		}
 	}
-	r.universe(rule+":params", len(params), 7)
+	r.universe(rule+":params", len(params), 5)
 	t := NewTaint(p, []string{"pogreb."}, func(v ssa.Value) bool { return params[v] })
 	// params are not instructions: seed them
 	for pa := range params {
